@@ -37,6 +37,8 @@ import XdslModel.Skeleton
 import XdslModel.LowerAffine
 import XdslModel.Excluded
 import XdslModel.RiscVFrameFloat
+import XdslModel.RawScan
+import XdslModel.SsaNames
 /-!
 Model registry for the driver: `MODEL <name>` selects a `(state, lineStep)` pair.
 A continuation-passing encoding is used because the state types differ.
@@ -89,6 +91,8 @@ def run? (name : String) : Option Runner :=
   | "lower_affine" => some fun k => k LowerAffine.lineStep ()
   | "excluded_walk" => some fun k => k RegAlloc.walkLineStep ()
   | "riscv_frame" => some fun k => k RiscV.frameFloatLineStep ()
+  | "raw_scan" => some fun k => k RawScan.lineStep ()
+  | "ssa_names" => some fun k => k SsaNames.lineStep {}
   | _ => none
 
 end Xdsl.Registry
